@@ -13,6 +13,8 @@ POOL = [
     (('b', 'a'), ('q', 'p'), ((True, True), (False, True))),
     (('a', 'c'), ('q', 'r'), ((False, False), (True, True))),
     (('c',), ('p', 'q', 'r'), ((True, True, False),)),
+    (('x', 'a'), ('p', 'x'), ((False, False), (True, False))),    # new names, no new true cell for the seeds having (a, p)
+    (('e',), ('t',), ((False,),)),                                # names only
 ]
 
 
@@ -124,8 +126,16 @@ def run(run):
     big_p = ['p%d' % i for i in range(8)]
     n_hist = 120 if run.tier == 'quick' else 3000
     for h in range(n_hist):
-        d = Definition()
-        hist = [defs.dnew_line(0, (), (), ())]
+        if h % 3 == 0:
+            d = Definition()
+            hist = [defs.dnew_line(0, (), (), ())]
+        else:
+            # a sparse start: many empty rows / columns (remove_empty_* then has several survivors and many removals)
+            keep_o, keep_p = rng.sample(big_o, 3), rng.sample(big_p, 3)
+            so, sp = rng.sample(big_o, 8), rng.sample(big_p, 8)
+            sb = [[(o in keep_o and p in keep_p and rng.random() < .7) for p in sp] for o in so]
+            d = Definition(so, sp, sb)
+            hist = [defs.dnew_line(0, so, sp, sb)]
         drv.ask(hist[0])
         for stepno in range(40):
             k = rng.randrange(17)
